@@ -11,7 +11,8 @@ CASETY = '(Z * Z * Z) * (Z * Z * Z) * bool'
 CHECKFN = 'check'
 RULE = ('pairs of version triples: all 27 order types (<,=,> per component) x magnitudes drawn from '
         '{0,1,2,9,10,99,100,101,150,999,1000,65535,2^31,2^63,10^30} plus random triples; plus files written by '
-        'emdfile.save whose _get_EMD_version must satisfy the helper against (1,0,0); non-trivial = distinct '
+        'emdfile.save (also over a foreign HDF5 / legacy / junk / EMD file the package had already looked at in the same process) whose '
+        '_get_EMD_version must satisfy the helper against (1,0,0); non-trivial = distinct '
         '(current, minimum) pairs that differ in at least one component')
 MODELLED = ['_get_EMD_version is modelled by hand (written_version) and tied by correspondence on written files']
 ASSUMPTIONS = ['version components are Python ints (unbounded) -- modelled as Z']
@@ -42,6 +43,11 @@ def cases(seed, tier):
                     'min': [rng.choice(POOL + [rng.randrange(0, 300)]) for _ in range(3)]})
     for mode in ('w', 'o', 'a', 'ao'):
         out.append({'kind': 'file', 'mode': mode})
+    # ... also when something else sat at the path before and the package had already looked at it in this process
+    for old in ('h5', 'legacy', 'junk', 'emd'):
+        for look in ('none', 'read', 'append', 'detector', 'version'):
+            for mode in ('o', 'overwrite'):
+                out.append({'kind': 'file', 'mode': mode, 'old': old, 'look': look})
     return out
 
 
@@ -52,9 +58,32 @@ def run_one(c, scratch):
             return {'res': bool(emdfile._version_is_geq(tuple(c['cur']), tuple(c['min'])))}
         except Exception as e:
             return {'raised': type(e).__name__}
-    p = os.path.join(scratch, 'v_%s.h5' % c['mode'])
+    p = os.path.join(scratch, 'v_%s_%s_%s.h5' % (c['mode'], c.get('old', ''), c.get('look', '')))
     with core.quiet():
         r = emdfile.Root(name='r'); r.tree(emdfile.Node(name='n'))
+        if c.get('old'):
+            import h5py, numpy as np
+            if os.path.exists(p):
+                os.remove(p)
+            if c['old'] == 'junk':
+                open(p, 'wb').write(b'no hdf5 here')
+            elif c['old'] == 'emd':
+                emdfile.save(p, emdfile.Root(name='q'), mode='w')
+            else:
+                with h5py.File(p, 'w') as f:
+                    g = f.create_group('data/old')
+                    g.create_dataset('data', data=np.arange(3)); g.create_dataset('dim1', data=np.arange(3))
+                    if c['old'] == 'legacy':
+                        g.attrs['emd_group_type'] = 1
+                        g['dim1'].attrs['name'] = 'x'; g['dim1'].attrs['units'] = 'px'
+            for act in ([] if c['look'] == 'none' else [c['look']]):
+                try:
+                    if act == 'read': emdfile.read(p)
+                    elif act == 'append': emdfile.save(p, r, mode='a')
+                    elif act == 'detector': emdfile.utils._is_EMD_file(p)
+                    else: emdfile._get_EMD_version(p)
+                except BaseException:
+                    pass
         try:
             emdfile.save(p, r, mode=c['mode'])
             v = emdfile._get_EMD_version(p)
